@@ -16,7 +16,18 @@
       become linear forms over them; required n_pending_parents' == sum of the non-terminal classes as a normal form (independent of the
       stored count, which concurrent completions move), Ready iff 0, cancelled raised iff a finished parent is not Success; only when
       this call commits; selection = this batch, the update's reserved id range, aggregates grouped and joined per child
-  R4  consumers: the schedulers start non-always-run jobs only with cancelled = 0 (always-run jobs regardless)  [shared with C07-R5]
+  R4  consumers: the schedulers start non-always-run jobs only with cancelled = 0 (always-run jobs regardless).  Every job query reachable from a
+      scheduler's `user_runnable_jobs` - directly or through helper closures / methods; a parameterised query text is instantiated per call site with
+      the Python constants bound to its `%s` parameters / f-string holes (engines/c0506facts.py part 1) - is classified by a truth table over
+      (always_run, cancelled, state) and a three-valued evaluation of the guards on its call path: none may select always_run = 0 AND cancelled = 1 or
+      a job that is not Ready; Ready always-run jobs are selected whatever cancelled / the group flag; ordinary jobs only while the group's ancestor
+      walk found no cancellation [that part shared with C07-R5]; keyed by the loop's group.  Declined when the jobs could be filtered in Python.
+  R5  lossless flow of the parent ids from the request body to the insert (engines/c0506facts.py part 2): `absolute_parent_ids` (legacy `parent_ids`)
+      and `in_update_parent_ids` are numbered in different id spaces (in-update k = job start + k - 1).  Abstract domain of list expressions
+      (source, shift, concatenation, duplicate removal with the scope of its memory, filter, slice, or-selection, removal): (a) who-may-touch: every
+      access to those keys in front_end/validate.py and front_end.py is a read, a move of the legacy alias, a default for a missing key, or a
+      duplicate removal within ONE id space whose memory lives no longer than the list; (b) the list `_create_jobs` iterates for the job_parents rows
+      and counts for n_pending_parents is absolute_parent_ids ++ in_update_parent_ids shifted by the same linear offset as the job id.
 Sibling agreement (which parent states count as done) follows from checking R2 and R3 against the same terminal set.
 Not decided: DAG arithmetic over interleavings; see C41 for uncommitted updates.
 """
@@ -25,21 +36,23 @@ from __future__ import annotations
 import ast
 from typing import Dict, List, Tuple
 
+from engines import c0506facts as cf
 from engines import jobgraphfacts as jg
 from engines import pyfacts as pf
 from engines import sqlfront as sf
 from engines import sqlrules as sr
-from engines.common import AnalysisError, Ctx
+from engines.common import AnalysisError, AnchorRemoved, Ctx
 from engines.sqlast import text
 
 META = dict(
     category='other',
     text='The three places where dependency state is written (submission, parent completion, commit recount) are checked against the statement: the submission site '
-         'structurally, the two stored routines by abstract execution over symbolic rows (opaque ids, symbolic counts split into classes where compared, enums split where read, row selections by normal form): initial state, '
+         'structurally and by a lossless-flow rule for the parent-id lists from the request to the insert, the scheduler selections by truth tables over (always_run, cancelled, state) per instantiated query, the two stored routines by abstract execution over symbolic rows (opaque ids, symbolic counts split into classes where compared, enums split where read, row selections by normal form): initial state, '
          'decrement-by-one exactly with the parent\'s terminal transition, Ready iff last parent, failure propagation, terminal-state complement, untouched bystanders.',
     note='MySQL evaluates UPDATE assignments left to right (relied upon by the repository for IF(n_pending_parents = 1, ..) before the decrement). Triggers are checked not to write the '
          'modelled tables. Trusted: SQL parser, the abstract executor (engines/jobgraphfacts.py).',
-    technique='static analysis: abstract execution of extracted SQL routine bodies over symbolic values with explicit case splits + normal forms of row selections + Python def-use at the submission site',
+    technique='static analysis: abstract execution of extracted SQL routine bodies over symbolic values with explicit case splits + normal forms of row selections + Python def-use at the submission site '
+              '+ abstract domain of list expressions (lossless flow) + truth tables over flag valuations of SQL selections instantiated per call site',
     design_ref='DESIGN.md §3 C05',
 )
 
@@ -95,7 +108,8 @@ def r1(ctx: Ctx) -> None:
         call = parents_append[0]
         loops = [p for p in sr.enclosing_loops(m, call)]
         ok = bool(loops) and pf.nsrc(loops[0].iter) == 'parent_ids' and isinstance(call.args[0], ast.Tuple) and \
-            [pf.nsrc(x) for x in call.args[0].elts] == ['batch_id', 'job_id', pf.nsrc(loops[0].target)] and not sr.enclosing_ifs(m, call, stop=loops[0])
+            [pf.nsrc(x) for x in call.args[0].elts] == ['batch_id', 'job_id', pf.nsrc(loops[0].target)] and not sr.enclosing_ifs(m, call, stop=loops[0]) and \
+            not any(isinstance(x, (ast.Continue, ast.Break, ast.Return)) for x in pf.walk_shallow(loops[0]))
     pe, pst = embs['job_parents']
     ok = ok and [c.lower() for c in (pst.cols or [])] == ['batch_id', 'job_id', 'parent_id'] and pf.nsrc(pe.call.args[1]) == 'job_parents_args' and pe.method == 'execute_many'
     ctx.check(ok, 'R1', cons + '::job_parents rows', 'not every id in parent_ids produces a (batch_id, job_id, parent_id) row in job_parents (a missing edge lets a child start before that parent)', m.path, pe.lineno)
@@ -301,33 +315,148 @@ def r3(ctx: Ctx, prog: sf.SqlProgram) -> None:
     ctx.unit('recount_abstract_cases', len(results))
 
 
-def r4(ctx: Ctx) -> None:
-    # delegate to the C07-R5 analysis of the scheduler selections (same obligation), counting only scheduler sites
-    from rules import c07
-    sub = Ctx('C07', ctx.tier)
-    sub.rule('R5', 'x', 0)
-    c07.r5(sub)
-    n = 0
-    for inst in sub.instances:
-        if 'user_runnable_jobs' in inst['construct']:
-            n += 1
-            if inst['holds']:
-                ctx.ok('R4', inst['construct'], inst['detail'])
-    for f in sub.findings:
-        if 'user_runnable_jobs' in f.construct:
-            ctx.bad('R4', f.construct, f.message, f.file, f.line)
-    ctx.need(n >= 4, 'scheduler selections not found')
+SCHEDULERS = (('batch/batch/driver/instance_collection/pool.py', 'PoolScheduler.schedule_loop_body.user_runnable_jobs'),
+              ('batch/batch/driver/instance_collection/job_private.py', 'JobPrivateInstanceManager.create_instances_loop_body.user_runnable_jobs'))
+
+
+def r4(ctx: Ctx, prog: sf.SqlProgram) -> None:
+    """Consumers of the cancelled flag.  For each scheduler, every job query reachable from `user_runnable_jobs` - directly or through
+    helper closures / methods, a parameterised query text being instantiated per call site with the Python constants bound to its
+    `%s` parameters (and string constants spliced into f-string holes) - is classified by a truth table over the atoms
+    (always_run, cancelled, state): which classes of jobs may it select; and by a three-valued evaluation of the guards on its call
+    path: for which values of the group-cancelled flag does it run.  Required: no instantiation may select a job with always_run = 0
+    and cancelled = 1, or a job that is not Ready; always-run Ready jobs are selected whatever cancelled and the flag are; jobs that are
+    not always-run are selected only while the group's ancestor walk found no cancellation [shared with C07-R5]; every query is keyed by
+    the (batch_id, job_group_id) of the group the enclosing loop is at."""
+    schema = jg.full_schema(prog)
+    for rel, q in SCHEDULERS:
+        m = pf.load(rel)
+        fn = m.func(q)
+        what = f'{rel}::{q}'
+        F = cf.scheduler_facts(m, fn, what)
+        lv = F.loop_var
+        flag_src = f"{lv}['{F.flag_col}']" if F.flag_col is not None and F.walk_ok else None
+        covered_must = set()
+        covered_may = set()
+        for inst in F.jobs:
+            jc = cf.job_classes(inst, schema)
+            ctx.need(not jc['unbound'], f'{what}: a parameter compared with always_run / cancelled / state is not bound to a constant at its call site ({jc["unbound"][:2]})')
+            runs_may = {gc for gc in (0, 1) if all(cf.guard3(t, pol, fn, flag_src, bool(gc)) is not False for t, pol in inst.guards)}
+            runs_must = {gc for gc in (0, 1) if all(cf.guard3(t, pol, fn, flag_src, bool(gc)) is True for t, pol in inst.guards)}
+            may_, must_ = jc['may'], jc['must']
+            ars = sorted({a for a, _, _ in may_})
+            cs = sorted({c for _, c, _ in may_})
+            via = ''.join(f' via {h}' for h in inst.chain)
+            cons = f'{what}::jobs query{via} always_run={"|".join(map(str, ars)) or "-"} cancelled={"|".join(map(str, cs)) or "-"}'
+            guards = [("" if pol else "not ") + f'({pf.nsrc(t)})' for t, pol in inst.guards]
+            keyed = jc['key']['batch_id'] == f"{lv}['batch_id']" and jc['key']['job_group_id'] == f"{lv}['job_group_id']"
+            problems = []
+            if runs_may and any((0, 1, s_) in may_ for s_ in STATES):
+                ctx.need(not jc['cancelled_projected'], f'{what}: a job query that can select always_run = 0 AND cancelled = 1 jobs also fetches jobs.cancelled: the jobs may be filtered in Python, which this rule does not analyse')
+                problems.append('it can select a job with always_run = 0 and cancelled = 1: a Ready child of a parent that did not succeed (mark_job_complete / commit_batch_update set jobs.cancelled = 1 on it) is handed to '
+                                'schedule_job, which POSTs it to a worker before the stored procedure refuses it - the job runs although a parent failed')
+            notready = sorted({s_ for _, _, s_ in may_ if s_ != 'Ready'})
+            if runs_may and notready:
+                problems.append(f'it can select jobs in state {notready}: only Ready jobs (all parents terminal) may be started')
+            if 1 in runs_may and any(a == 0 for a, _, _ in may_):
+                problems.append('jobs that are not always-run are offered although the group\'s ancestor walk found a cancellation'
+                                + ('' if flag_src else ' (the cancelled flag of the job-group query is not the canonical ancestor walk, so no guard on it is recognised)'))
+            if not keyed:
+                problems.append(f'it is not keyed by the group of the enclosing loop (batch_id <- {jc["key"]["batch_id"]}, job_group_id <- {jc["key"]["job_group_id"]}; expected {lv}[\'batch_id\'], {lv}[\'job_group_id\'])')
+            for gc in runs_must:
+                covered_must |= {(a, c, gc) for a, c, s_ in must_ if s_ == 'Ready'} if keyed else set()
+            for gc in runs_may:
+                covered_may |= {(a, c, gc) for a, c, s_ in may_ if s_ == 'Ready'} if keyed else set()
+            ctx.check(not problems, 'R4', cons, f'this instantiation of the job query (conjuncts on always_run / cancelled / state: {jc["conj"]}; guards on the call path: {guards or "none"}): ' + '; '.join(problems),
+                      m.path, inst.lineno)
+        want = {(1, c, gc) for c in (0, 1) for gc in (0, 1)}
+        cons = f'{what}::always-run jobs are offered regardless'
+        if want <= covered_must:
+            ctx.ok('R4', cons, {'covered': sorted(covered_must)})
+        elif not want <= covered_may:
+            miss = sorted(want - covered_may)
+            ctx.bad('R4', cons, f'no job query selects Ready always-run jobs with (cancelled, group cancelled) in {[(c, g) for _, c, g in miss]}: an always-run child of a failed parent (cancelled = 1) must still run', m.path, fn.lineno)
+        else:
+            raise AnalysisError(f'{what}: whether always-run jobs are selected in every case depends on guards / conjuncts the analysis cannot evaluate')
+
+
+def r5(ctx: Ctx) -> None:
+    """Lossless flow of the parent ids (engines/c0506facts.py part 2).  The two lists of a job spec, `absolute_parent_ids` (legacy
+    `parent_ids`) and `in_update_parent_ids`, are numbered in different id spaces.  R1 fixes what happens to `parent_ids` at the
+    insert; this rule extends it upstream: (a) in the validator stage (every function of front_end/validate.py) and in front_end.py
+    every operation on those keys is one of the closed table {read, move/rename of the legacy alias, duplicate removal WITHIN one id
+    space with a memory that lives no longer than the list} - filtering, slicing, element removal, `or`-selection, duplicate
+    removal across lists / id spaces / jobs, discarding or overwriting a list are violations, other shapes are declined; (b) the
+    list `_create_jobs` iterates for the job_parents rows and counts for n_pending_parents denotes, as a normal form over that
+    domain, absolute_parent_ids ++ [k + shift for k in in_update_parent_ids] with the SAME linear shift that turns the in-update
+    job index into the job id."""
+    fm = pf.load('batch/batch/front_end/front_end.py')
+    vm = pf.load('batch/batch/front_end/validate.py')
+    fn = fm.func('_create_jobs')
+    findings = []
+    # (b) what feeds the rows and the count
+    rows_iter = count_arg = None
+    for n in pf.walk_shallow(fn):
+        if isinstance(n, ast.Call) and pf.dotted(n.func) == 'job_parents_args.append':
+            loops = sr.enclosing_loops(fm, n)
+            if loops:
+                rows_iter = loops[0].iter
+        if isinstance(n, ast.Call) and pf.dotted(n.func) == 'jobs_args.append' and n.args and isinstance(n.args[0], ast.Tuple):
+            for x in n.args[0].elts:
+                x = pf.resolve_expr(fn, x) if isinstance(x, ast.Name) else x
+                if isinstance(x, ast.Call) and pf.dotted(x.func) == 'len' and len(x.args) == 1 and cf.summarise(cf.ListEval(fm, fn).ev(x.args[0])).terms:
+                    count_arg = x.args[0]
+    ctx.need(rows_iter is not None and count_arg is not None, '_create_jobs: the loop that appends the job_parents rows / the len(..) that feeds n_pending_parents not found')
+    findings += cf.check_parent_ids_value(fm, fn, rows_iter, 'list iterated for the job_parents rows')
+    if pf.nsrc(count_arg) != pf.nsrc(rows_iter):
+        findings += cf.check_parent_ids_value(fm, fn, count_arg, 'list counted for n_pending_parents')
+    # (a) who touches the keys, and how
+    n_sites = 0
+    for mod in (vm, fm):
+        sites = cf.touch_sites(mod)
+        n_sites += len(sites)
+        fs = cf.check_key_writers(mod)
+        findings += fs
+        if not any(f.status != 'ok' for f in fs):
+            findings.append(cf.FlowFinding('ok', f'{mod.rel}::every access to the parent-id keys keeps the lists intact', f'{len(sites)} access(es): ' + ', '.join(sorted({f"{mod.qualname(t.fn)}:{t.how}" for t in sites})), 0))
+    ctx.need(n_sites >= 3, 'accesses to the parent-id keys of a job spec not found (validator rename, the two reads of _create_jobs)')
+    if ctx.tier == 'thorough':
+        for rel in pf.walk_py(['batch/batch']):
+            if rel in (vm.rel, fm.rel):
+                continue
+            mod = pf.load(rel)
+            if not any(k in mod.src for k in cf.PARENT_KEYS):
+                continue
+            findings += [f for f in cf.check_key_writers(mod) if f.status != 'ok']
+    undec = [f for f in findings if f.status == 'undecided']
+    for f in findings:
+        if f.status == 'ok':
+            ctx.ok('R5', f.construct, f.message)
+        elif f.status == 'bad':
+            ctx.bad('R5', f.construct, f.message, (vm.path if f.construct.startswith(vm.rel) else fm.path), f.line)
+    ctx.need(not undec or any(f.status == 'bad' for f in findings), undec[0].construct + ': ' + undec[0].message if undec else '')
 
 
 def run(ctx: Ctx) -> None:
-    ctx.explanation = 'Clause-by-clause check of the three writers of dependency state and of the scheduler selections that consume the cancelled flag.'
+    ctx.explanation = ('Clause-by-clause check of the three writers of dependency state, of the path the parent ids take from the request to the insert, and of the scheduler selections that consume the cancelled flag '
+                       '(seen through query helpers).')
     ctx.rule('R1', 'submission: Ready only for first-update jobs without parents; n_pending_parents = len(parent_ids); one job_parents row per parent, duplicates rejected', 5)
     ctx.rule('R2', 'parent completion, composite effect of mark_job_complete on the dependents (abstract execution): with the job\'s own terminal transition and only then: count - 1, Ready iff last pending parent, cancelled iff parent not Success (flag irrelevant for always_run), nothing but this job\'s children touched', 5)
     ctx.rule('R3', 'commit recount, composite effect of commit_batch_update on a job of the update (abstract execution over parent count classes): pending = non-terminal parents, Ready iff 0, cancelled iff a finished parent failed; per child; only the update\'s own jobs; only this batch', 4)
     ctx.rule('R4', 'schedulers start non-always-run jobs only with cancelled = 0; always-run jobs regardless', 4)
+    ctx.rule('R5', 'lossless flow of the parent ids from the request to the insert: the validator stage and front_end.py only read / move the two parent-id lists or de-duplicate them within one id space; '
+             'the list that feeds the job_parents rows and n_pending_parents is absolute_parent_ids ++ in_update_parent_ids shifted by the same offset as the job id', 4)
+    ctx.assume('the schema validators of hailtop.utils.validate (job_validator.validate) do not modify the job spec they check')
     ctx.assume('MySQL applies the SET assignments of an UPDATE left to right, later assignments seeing earlier new values (documented for single-table UPDATE; the repository relies on it for the multi-table children update)')
     prog = sf.load_program()
-    r1(ctx)
-    r2(ctx, prog)
-    r3(ctx, prog)
-    r4(ctx)
+    # every rule is evaluated even when an earlier one declines: a violation established by a recognised shape is reported, otherwise the first decline stands
+    first = None
+    for step in (lambda: r1(ctx), lambda: r2(ctx, prog), lambda: r3(ctx, prog), lambda: r4(ctx, prog), lambda: r5(ctx)):
+        try:
+            step()
+        except AnchorRemoved:
+            raise
+        except AnalysisError as e:
+            first = first or e
+    if first is not None:
+        raise first
